@@ -764,7 +764,7 @@ Lemma do_def_off legacy started c f decl d s :
   do_def all_off legacy started c f decl d s =
   let g := s_next s in
   let pend := negb legacy && negb started in
-  let nr := mk_frec c f g (eff_sr legacy d) (nodupN decl) [] true true pend in
+  let nr := mk_frec c f g (eff_sr legacy d) (nodupN decl) [] true true pend (s_inc s c) in
   let s1 := set_funcs (set_next s (g + 1)) (s_funcs s ++ [nr]) in
   let s2 := if pend then s1 else commit false s1 nr in
   match find_bound (set_next s (g + 1)) c f with Some r => unbind all_off legacy s2 r | None => s2 end.
@@ -783,7 +783,7 @@ Lemma winv_do_def_imm legacy started c f decl d s L :
   WInv s' /\ NoPend (s_funcs s') /\ AllCtx L (s_funcs s') /\ s_files s' = s_files s /\ s_next s <= s_next s'.
 Proof.
   intros Hmode (HC & HF) HNP HA HcL. rewrite do_def_off. cbn zeta. rewrite Hmode.
-  set (g := s_next s). set (nr := mk_frec c f g (eff_sr legacy d) (nodupN decl) [] true true false).
+  set (g := s_next s). set (nr := mk_frec c f g (eff_sr legacy d) (nodupN decl) [] true true false (s_inc s c)).
   set (F := s_funcs s). set (s1 := set_funcs (set_next s (g + 1)) (F ++ [nr])).
   assert (HC1 : Core s1) by (apply core_append; [assumption|reflexivity|reflexivity]).
   assert (Hnr1 : In nr (s_funcs s1)) by (cbn; apply in_or_app; right; left; reflexivity).
@@ -824,7 +824,7 @@ Lemma winv_do_def_pend c f decl d s L Lp :
   WInv s' /\ K (s_funcs s') /\ AllCtx L (s_funcs s') /\ PendIn Lp (s_funcs s') /\ s_files s' = s_files s /\ s_next s <= s_next s'.
 Proof.
   intros (HC & HF) HK HA HP HcL HcLp. rewrite do_def_off. cbn zeta. cbn [negb andb].
-  set (g := s_next s). set (nr := mk_frec c f g (eff_sr false d) (nodupN decl) [] true true true).
+  set (g := s_next s). set (nr := mk_frec c f g (eff_sr false d) (nodupN decl) [] true true true (s_inc s c)).
   set (F := s_funcs s). set (s1 := set_funcs (set_next s (g + 1)) (F ++ [nr])).
   assert (HC1 : Core s1) by (apply core_append; [assumption|reflexivity|reflexivity]).
   assert (HF1 : Flags s1).
@@ -946,8 +946,28 @@ Definition NoCtx (c : cid) (F : list frec) : Prop := forall r, In r F -> f_ctx r
 Lemma stop_ctx_eq legacy s c :
   stop_ctx all_off legacy s c =
   let s1 := fold_left (stop_step all_off legacy) (filter (fun r => N.eqb (f_ctx r) c) (s_funcs s)) s in
-  set_funcs s1 (filter (fun r => negb (N.eqb (f_ctx r) c) || nonempty (f_held r)) (s_funcs s1)).
+  set_funcs s1 (map (fun r => if N.eqb (f_ctx r) c then with_bound false r else r)
+                    (filter (fun r => negb (N.eqb (f_ctx r) c) || nonempty (f_held r) || is_handler s1 r) (s_funcs s1))).
 Proof. reflexivity. Qed.
+
+Lemma map_filter_same {A} (m : A -> A) (p q : A -> bool) l :
+  (forall r, In r l -> p r = q r) -> (forall r, In r l -> q r = true -> m r = r) -> map m (filter p l) = filter q l.
+Proof.
+  induction l as [|x l IH]; intros Hp Hm; [reflexivity|]. cbn [filter].
+  rewrite (Hp x (or_introl eq_refl)). destruct (q x) eqn:E; cbn [map].
+  - rewrite (Hm x (or_introl eq_refl) E). f_equal. apply IH; intros r Hr; [apply Hp|apply Hm]; right; assumption.
+  - apply IH; intros r Hr; [apply Hp|apply Hm]; right; assumption.
+Qed.
+
+(* a function object that holds nothing is not HA's handler of anything *)
+Lemma core_not_handler s r : Core s -> In r (s_funcs s) -> f_held r = [] -> is_handler s r = false.
+Proof.
+  intros HC Hr Hh. unfold is_handler. destruct (existsb _ (f_decl r)) eqn:E; [|reflexivity]. exfalso.
+  apply existsb_exists in E. destruct E as (k & _ & Hk). destruct (s_reg s k) as [[g m]|] eqn:Er; [|discriminate].
+  apply N.eqb_eq in Hk. destruct (w_hand _ HC k g m Er) as (r0 & Hr0 & Eg & _ & Hm & _).
+  assert (r0 = r) by (apply (unique_gen (s_funcs s)); auto; [apply core_nodup; assumption|congruence]). subst r0.
+  rewrite Hh in Hm. discriminate.
+Qed.
 
 Lemma nodup_gens_filter p F : NoDup (gens F) -> NoDup (gens (filter p F)).
 Proof.
@@ -973,17 +993,22 @@ Proof.
     assert (Ht : In r1 todo) by (apply filter_In; split; [assumption|apply N.eqb_eq; congruence]).
     apply Hrel; [assumption|]. rewrite Eg1. apply in_map. apply filter_In. split; [assumption|].
     apply (proj2 HW r1 Hr1). }
-  assert (Hp : forall r', In r' (s_funcs s1) -> negb (N.eqb (f_ctx r') c) || nonempty (f_held r') = false -> f_held r' = []).
-  { intros r' H' E. apply orb_false_elim in E. destruct E as (E & _). apply negb_false_iff in E. apply Hempty; assumption. }
   destruct HW1 as (HC1 & HF1).
+  assert (Hl : map (fun r => if N.eqb (f_ctx r) c then with_bound false r else r)
+                   (filter (fun r => negb (N.eqb (f_ctx r) c) || nonempty (f_held r) || is_handler s1 r) (s_funcs s1))
+               = filter (fun r => negb (N.eqb (f_ctx r) c)) (s_funcs s1)).
+  { apply map_filter_same.
+    - intros r' H'. destruct (N.eqb (f_ctx r') c) eqn:Ec; cbn [negb orb]; [|reflexivity].
+      rewrite (Hempty r' H' Ec). cbn [nonempty orb]. apply core_not_handler; auto.
+    - intros r' H' E. apply negb_true_iff in E. rewrite E. reflexivity. }
+  rewrite Hl.
+  assert (Hp : forall r', In r' (s_funcs s1) -> negb (N.eqb (f_ctx r') c) = false -> f_held r' = []).
+  { intros r' H' E. apply negb_false_iff in E. apply Hempty; assumption. }
   split; [split|].
   - apply core_filter; assumption.
   - intros r' H'. cbn in H'. apply filter_In in H'. apply HF1. tauto.
   - split; [eapply shrinks_trans; [exact Hsh|apply shrinks_filter]|]. split; [|auto].
-    intros r' H'. cbn in H'. apply filter_In in H'. destruct H' as (Hin' & E).
-    destruct (N.eqb_spec (f_ctx r') c) as [Ec|Hne]; [|assumption]. exfalso.
-    assert (Hh : f_held r' = []) by (apply Hempty; [assumption|apply N.eqb_eq; assumption]).
-    rewrite Hh in E. cbn in E. discriminate.
+    intros r' H'. cbn in H'. apply filter_In in H'. destruct H' as (_ & E). apply negb_true_iff in E. apply N.eqb_neq in E. assumption.
 Qed.
 
 (* ---------- ctx.start(): the waiting managers of context c start, oldest first ---------- *)
@@ -1131,15 +1156,18 @@ Definition SInv (s : st) : Prop :=
 Lemma sinv_prune s : WInv s -> NoPend (s_funcs s) -> AllCtx (map fst (s_files s)) (s_funcs s) -> SInv (prune s).
 Proof.
   intros (HC & HF) HNP HA. unfold prune.
-  assert (Hsh : shrinks (s_funcs s) (filter (fun r => negb (inert r)) (s_funcs s))) by apply shrinks_filter.
+  assert (Hsh : shrinks (s_funcs s) (filter (fun r => negb (inert r) || is_handler s r) (s_funcs s))) by apply shrinks_filter.
   split; [split|split; [|split]].
-  - apply core_filter; [assumption|]. intros r Hr E. apply negb_false_iff in E. unfold inert in E.
+  - apply core_filter; [assumption|]. intros r Hr E. apply orb_false_elim in E. destruct E as (E & _).
+    apply negb_false_iff in E. unfold inert in E.
     destruct (f_held r); [reflexivity|]. rewrite andb_false_r in E. discriminate.
   - intros r Hr. cbn in Hr. apply filter_In in Hr. apply HF. tauto.
   - cbn. eapply NoPend_shrinks; eassumption.
-  - intros r Hr. cbn in Hr. apply filter_In in Hr. destruct Hr as (Hr & E). apply negb_true_iff in E. unfold inert in E.
+  - intros r Hr. cbn in Hr. apply filter_In in Hr. destruct Hr as (Hr & E).
     destruct (f_bound r) eqn:Eb; [reflexivity|]. exfalso.
-    destruct (HF r Hr) as (_ & B & _). rewrite (B Eb), (HNP r Hr) in E. discriminate.
+    destruct (HF r Hr) as (_ & B & _). specialize (B Eb).
+    rewrite (core_not_handler s r HC Hr B), orb_false_r in E. apply negb_true_iff in E. unfold inert in E.
+    rewrite Eb, B, (HNP r Hr) in E. discriminate.
   - cbn. eapply AllCtx_shrinks; eassumption.
 Qed.
 
@@ -1170,27 +1198,33 @@ Proof.
     split; [assumption|]. split; [eapply shrinks_trans; eassumption|]. split; congruence.
 Qed.
 
+Lemma winv_set_inc s c i : WInv s -> WInv (set_inc s c i).
+Proof. intros ([] & HF). split; [constructor; cbn; auto|exact HF]. Qed.
+
 Lemma bodies_imm legacy L fs : forall s, negb legacy = false -> WInv s -> NoPend (s_funcs s) -> AllCtx L (s_funcs s) ->
   (forall p, In p fs -> In (fst p) L) ->
-  let s' := fold_left (fun s p => run_body all_off legacy false (fst p) (snd p) s) fs s in
+  let s' := fold_left (fun s p => run_body all_off legacy false (fst p) (snd p) (set_inc s (fst p) (s_next s))) fs s in
   WInv s' /\ NoPend (s_funcs s') /\ AllCtx L (s_funcs s') /\ s_files s' = s_files s.
 Proof.
   induction fs as [|p fs IH]; intros s Hl HW HNP HA HL; cbn [fold_left].
   - auto.
-  - destruct (winv_body_imm legacy false (fst p) L (snd p) s) as (A & B & C & D & _); auto.
-    { rewrite Hl. reflexivity. } { apply HL. left; reflexivity. }
+  - destruct (winv_body_imm legacy false (fst p) L (snd p) (set_inc s (fst p) (s_next s))) as (A & B & C & D & _); auto.
+    { rewrite Hl. reflexivity. } { apply winv_set_inc; assumption. } { apply HL. left; reflexivity. }
+    cbn [set_inc s_files] in D.
     destruct (IH _ Hl A B C) as (A' & B' & C' & D'); [intros q Hq; apply HL; right; assumption|].
     split; [assumption|]. split; [assumption|]. split; [assumption|congruence].
 Qed.
 
 Lemma bodies_pend L fs : forall s, WInv s -> K (s_funcs s) -> AllCtx L (s_funcs s) -> PendIn L (s_funcs s) ->
   (forall p, In p fs -> In (fst p) L) ->
-  let s' := fold_left (fun s p => run_body all_off false false (fst p) (snd p) s) fs s in
+  let s' := fold_left (fun s p => run_body all_off false false (fst p) (snd p) (set_inc s (fst p) (s_next s))) fs s in
   WInv s' /\ K (s_funcs s') /\ AllCtx L (s_funcs s') /\ PendIn L (s_funcs s') /\ s_files s' = s_files s.
 Proof.
   induction fs as [|p fs IH]; intros s HW HK HA HP HL; cbn [fold_left].
   - auto 6.
-  - destruct (winv_body_pend (fst p) L L (snd p) s) as (A & B & C & D & E & _); auto; try (apply HL; left; reflexivity).
+  - destruct (winv_body_pend (fst p) L L (snd p) (set_inc s (fst p) (s_next s))) as (A & B & C & D & E & _); auto; try (apply HL; left; reflexivity).
+    { apply winv_set_inc; assumption. }
+    cbn [set_inc s_files] in E.
     destruct (IH _ A B C D) as (A' & B' & C' & D' & E'); [intros q Hq; apply HL; right; assumption|].
     split; [assumption|]. split; [assumption|]. split; [assumption|]. split; [assumption|congruence].
 Qed.
@@ -1235,10 +1269,13 @@ Proof.
     { cbn [s2 set_files s_funcs]. eapply AllCtx_shrinks; [eassumption|]. eapply AllCtx_mono; [|eassumption].
       intros c' H. unfold L2. cbn [s2 set_files s_files]. apply file_set_In. right. rewrite Efi1. assumption. }
     destruct legacy.
-    + destruct (winv_body_imm true false c L2 b s2) as (A & B & C & D & _); auto.
+    + destruct (winv_body_imm true false c L2 b (set_inc s2 c (s_next s2))) as (A & B & C & D & _); auto.
+      { apply winv_set_inc; assumption. }
+      cbn [set_inc s_files] in D.
       apply sinv_prune_gc; [assumption|assumption|rewrite D; assumption].
-    + destruct (winv_body_pend c L2 [c] b s2) as (A & B & C & D & E & _); auto.
-      { apply NoPend_K; assumption. } { apply NoPend_PendIn; assumption. } { left; reflexivity. }
+    + destruct (winv_body_pend c L2 [c] b (set_inc s2 c (s_next s2))) as (A & B & C & D & E & _); auto.
+      { apply winv_set_inc; assumption. } { apply NoPend_K; assumption. } { apply NoPend_PendIn; assumption. } { left; reflexivity. }
+      cbn [set_inc s_files] in E.
       destruct (winv_start_ctx oracle _ c L2 [] A B C D) as (A' & _ & C' & D' & E' & _).
       apply sinv_prune_gc; [assumption| |rewrite E', E; assumption].
       intros r Hr. destruct (f_pending r) eqn:Ep; [|reflexivity]. destruct (D' r Hr Ep).
@@ -1267,7 +1304,7 @@ Proof.
       apply sinv_prune_gc; [assumption|assumption|rewrite D; assumption].
     + destruct (bodies_pend L2 (s_files s2) s2) as (A & B & C & D & E); auto.
       { apply NoPend_K; assumption. } { apply NoPend_PendIn; assumption. }
-      set (s3 := fold_left (fun s p => run_body all_off false false (fst p) (snd p) s) (s_files s2) s2) in *.
+      set (s3 := fold_left (fun s p => run_body all_off false false (fst p) (snd p) (set_inc s (fst p) (s_next s))) (s_files s2) s2) in *.
       destruct (starts_all oracle L2 (map fst (s_files s3)) s3 A B C) as (A' & B' & C' & D').
       { rewrite E. exact D. }
       apply sinv_prune_gc; [assumption|assumption|].
@@ -1426,7 +1463,7 @@ Proof.
   rewrite (gc_off legacy _ (proj2 HWd)). clear HWd.
   rewrite do_def_off. cbn zeta.
   replace (negb legacy && negb true) with false by (destruct legacy; reflexivity).
-  set (g := s_next s). set (nr := mk_frec c f g (eff_sr legacy d) (nodupN decl) [] true true false).
+  set (g := s_next s). set (nr := mk_frec c f g (eff_sr legacy d) (nodupN decl) [] true true false (s_inc s c)).
   set (s1 := set_funcs (set_next s (g + 1)) (s_funcs s ++ [nr])).
   set (held := filter (okf s c) (nodupN decl)).
   assert (Hokf : forall k, okf s1 c k = okf s c k) by reflexivity.
